@@ -43,6 +43,7 @@ def run(ctx):
     ctx.rule("R08.4", "MAGIC: the 8 magic bytes written, compared by rtosc_bundle_p and tested by rtosc_message_ring_length are \"#bundle\\0\"")
     ctx.rule("R08.5", "HEADER: magic at offset 0, time tag at offset 8, first size field at offset 16 - for the writer and every reader")
     ctx.rule("R08.7", "TERMINATOR: a bundle is followed by a zero size field for every capacity: rtosc_bundle zero-fills its whole destination (memset(buffer,0,len) on the success path) or append_bundle writes a zero size field after the appended element")
+    ctx.rule("R08.8", "SIZE-IS-PREFIX: rtosc_bundle_size returns the stored size field of the element (a value obtained by extract_uint32 of the walking cursor), not a re-measurement of the element's contents (a nested bundle is copied without its own terminator)")
     ctx.rule("R08.6", "PREFIX-COPY: the value written as length prefix, the memcpy length and the cursor advance (minus the 4-byte prefix) are the same variable")
 
     # ---- R08.1 (shared machinery with C02)
@@ -85,6 +86,9 @@ def run(ctx):
         fn = u.function(q)
         cands = [x for x in A.walk(u.body(fn)) if x.get("kind") == "CompoundAssignOperator" and x.get("opcode") == "+=" and
                  any(A.callee_name(c) == "extract_uint32" for c in A.calls_in(x))]
+        if not cands and any(A.callee_name(c) in ("rtosc_bundle_fetch", "rtosc_bundle_elements") for c in A.calls_in(u.body(fn))):
+            ctx.note("%s delegates the walk to another walker" % q)
+            continue
         ctx.require(len(cands) == 1, "R08.3: %s: expected one cursor advance by extract_uint32(), found %d" % (q, len(cands)))
         st = cands[0]
         cur = C.var_id(A.kids(st)[0])
@@ -126,7 +130,7 @@ def run(ctx):
         items = list(S.items)
         tab = {s: (4 + s if items in ([4, "len"], ["len", 4]) else None) for s in SIZES}
         strides["rtosc_bundle:loop#%d(%s)" % (k, ",".join(sorted(u.by_id[c].get("name") for c in curs)))] = (tab, A.where(lp), str(items))
-    ctx.require(len(strides) >= 6, "R08.3: only %d stride sites found" % len(strides))
+    ctx.require(len(strides) >= 5, "R08.3: only %d stride sites found" % len(strides))
     for name, (tab, site, text) in strides.items():
         ok = all(tab.get(s) == 4 + s for s in SIZES)
         ctx.ob("R08.3", name, ok, site=site, detail={"expression": text, "stride_by_size": {str(s): tab.get(s) for s in SIZES}},
@@ -190,6 +194,8 @@ def run(ctx):
         fn = u.function(q)
         d = C.local_decl(u, fn, "lengths", required=False)
         cands = [x for x in A.walk(u.body(fn)) if x.get("kind") == "VarDecl" and "uint32_t" in A.stype(x) and "*" in A.stype(x)]
+        if not cands and any(A.callee_name(c) in ("rtosc_bundle_fetch", "rtosc_bundle_elements") for c in A.calls_in(u.body(fn))):
+            continue      # delegates the walk
         ctx.require(len(cands) == 1, "R08.5: %s: cursor declaration not found" % q)
         init = A.strip_casts(A.kids(cands[0])[-1])
         okk = init.get("kind") == "BinaryOperator" and init.get("opcode") == "+" and A.int_literal(A.kids(init)[1]) == 16 and \
@@ -304,6 +310,34 @@ def run(ctx):
            what="rtosc_bundle pre-computes a header of %s bytes but writes its first element at offset %s" % (iv, seen.get("elements")))
 
     bundle_measure_obligation(ctx, u, "R08.6")
+    # R08.8
+    fsz = u.function("rtosc_bundle_size")
+    rets = [x for x in A.walk(u.body(fsz)) if x.get("kind") == "ReturnStmt"]
+    okp = bool(rets)
+    srcs = []
+    for r_ in rets:
+        e = A.strip_casts(A.kids(r_)[0])
+        def origin(e, depth=0):
+            e = A.strip_casts(e)
+            if A.int_literal(e) == 0:
+                return ["0"]
+            if e.get("kind") == "CallExpr":
+                return [A.callee_name(e)]
+            if e.get("kind") == "DeclRefExpr" and depth < 3:
+                vid = e["referencedDecl"]["id"]
+                outs = []
+                d = u.by_id.get(vid)
+                if d is not None and A.kids(d):
+                    outs += origin(A.kids(d)[-1], depth + 1)
+                for y in A.walk(u.body(fsz)):
+                    if y.get("kind") == "BinaryOperator" and y.get("opcode") == "=" and A.ref_id(A.kids(y)[0]) == vid:
+                        outs += origin(A.kids(y)[1], depth + 1)
+                return outs
+            return ["?" + A.src(e)[:40]]
+        srcs += origin(e)
+    okp = okp and set(srcs) <= {"0", "extract_uint32"} and "extract_uint32" in srcs
+    ctx.ob("R08.8", "rtosc_bundle_size", okp, site=A.where(fsz), detail={"returned_value_comes_from": sorted(set(srcs))},
+           what="rtosc_bundle_size returns a value obtained from %s instead of the element's stored size field" % sorted(set(srcs)))
     # R08.7
     fb = u.function("rtosc_bundle")
     bufp, lenp = u.params(fb)[0]["id"], u.params(fb)[1]["id"]
